@@ -290,27 +290,31 @@ def run_check(prop, tier, seed, replay=None):
 
     def triage(r):
         """a violating result: shrink it (keeping the same kind of failure), classify as known finding or new violation"""
-        key0 = prop.finding_key(r['case'], r['violation'])
+        # a failure is attributed to a recorded finding only if model and implementation agree on that input: the model
+        # reproduces the findings of the unchanged code, so a disagreement means this is something else
+        key0 = prop.finding_key(r['case'], r['violation']) if not r.get('disagree') else None
         for k in known:
             if key0 is not None and k['key'] == key0:
                 known_hits.setdefault(k['id'], (k, r['case'], r['violation']))   # a listed finding: no need to shrink
                 return
         def same_failure(c):
             rr = evaluate_cases(prop, [c])[0]
-            return bool(rr['violation']) and prop.finding_key(c, rr['violation']) == key0
+            return bool(rr['violation']) and (prop.finding_key(c, rr['violation']) if not rr.get('disagree') else None) == key0
         small = shrink_case(prop, r['case'], same_failure) if r['violation'] else r['case']
         rr = evaluate_cases(prop, [small])[0]
         if not rr['violation']:
             small, rr = r['case'], r
-        key = prop.finding_key(small, rr['violation'])
+        key = prop.finding_key(small, rr['violation']) if not rr.get('disagree') else None
         for k in known:
             if key is not None and k['key'] == key:
                 known_hits.setdefault(k['id'], (k, small, rr['violation']))
                 return
         new_violations.append((small, rr))
 
-    for r in violations[:6]:
+    for r in violations:      # every failing case is classified; shrinking stops at the first one no recorded finding explains
         triage(r)
+        if new_violations:
+            break
     for r in results:
         if r.get('known'):
             for k in known:
